@@ -1,10 +1,16 @@
 import Model.Gencommon
+import Lemmas.GencommonMerge
+import Lemmas.GencommonRefs
 /-!
 # C19 — gencommon: the interface rendered from FindInterface compiles and fits
 
-(a) parameter naming, (b) embedded-method merge, (c) type references.  The clause "the rendered file
-is accepted by the Go compiler and implemented by the original type" is observed by the
-correspondence run (`go build`), not proved here.
+(a) parameter naming, (b) embedded-method merge, (c) type references — each proved for ALL
+signatures / embedding trees of any depth / type terms (helper lemmas in `Lemmas/GencommonMerge`
+and `Lemmas/GencommonRefs`).  The clause "the rendered file is accepted by the Go compiler and
+implemented by the original type" is observed by the correspondence run (`go build`), not proved
+here; what is proved towards it: names distinct and valid, method names distinct, every rendered
+method promoted by Go's selector rule, every rendered type reference denoting the identical type
+under the active imports.
 -/
 namespace Gencommon
 
@@ -469,9 +475,6 @@ example :
 
 /-! ## (b) method collection and embedded merge -/
 
-/-- the private filter of the own-method loop -/
-def keep (o : Opts) (n : Name) : Bool := o.priv || exported n
-
 abbrev enterU : Unit → Unit → Unit := fun _ _ => ()
 abbrev visitU : Unit → Unit → Unit × Unit := fun _ _ => ((), ())
 
@@ -604,23 +607,88 @@ theorem own_methods_present (propagate : Bool) (o : Opts) (self : Unit) (own : L
 
 /-! ### the merge against the property text
 
-Full statements (NOT proved here; they are what the correspondence run checks on every generated
-struct, and what `legacy_merge_violates` refutes for the pinned commit):
+`WF t`: own method names are pairwise distinct at every type of the tree (Go guarantees it).
+`specHas` is the property text read recursively ("the added methods are the promoted ones defined
+neither by the type itself nor under more than one embedded field"); `GoPromotes` is Go's selector
+rule.  All for embedding trees of ANY depth, and for any import-handler state threaded through. -/
 
-```
-theorem embedded_methods_exact (o : Opts) (ho : o.embedded = true) (t : Ty Unit Unit) (n : Name) :
-    n ∈ ifaceNames true o t ↔ keep o n = true ∧ specHas t n = true
-theorem rendered_methods_promoted (o : Opts) (t : Ty Unit Unit) (n : Name) :
-    n ∈ ifaceNames true o t → GoPromotes t n
-```
+/-- **embedded_methods_exact.** With IncludeEmbedded, the repaired merge renders a method name iff
+it passes the private filter and the specification has it. -/
+theorem embedded_methods_exact (o : Opts) (ho : o.embedded = true) (t : Ty Unit Unit) (hwf : WF t)
+    (n : Name) : n ∈ ifaceNames true o t ↔ keep o n = true ∧ specHas t n = true := by
+  rw [ifaceNames_def]
+  have hok := nti_ok enterU visitU o ho t hwf ()
+  constructor
+  · intro h
+    have hk := nti_keepG enterU visitU true o t () n h
+    exact ⟨hk, (hok.2.1 n hk).1 h⟩
+  · rintro ⟨hk, hs⟩
+    exact (hok.2.1 n hk).2 hs
 
-Proved below: `embedded_methods_exact_partial` — the direction-free statement on the witness tree
-and on a tree using every branch of the merge (own method shadowing an embedded one, a name under
-two embedded fields, a name ambiguous one level down, a private method), by evaluation.  Proved
-above for all trees: `without_embedded`, `private_filter_own`, `nti_keep`, `own_methods_present`.
-Missing for the full statements: the invariant of the `mergeStep`/`ambStep` folds (toAdd = names
-seen under exactly one embedded field and in that field's interface; amb = the other names seen)
-carried through the mutual induction over the tree. -/
+/-- the same for the model function the driver runs (`findInterface`, repaired algorithm), whatever
+the import handler and the signatures are -/
+theorem findInterface_methods_exact (o : Opts) (ho : o.embedded = true) (ih : IH)
+    (t : Ty GoType Sig) (hwf : WF t) (n : Name) :
+    n ∈ (findInterface false o ih t).2.methods.map (·.1) ↔ keep o n = true ∧ specHas t n = true := by
+  unfold findInterface
+  simp only [Bool.not_false]
+  constructor
+  · intro h
+    have hk := nti_keepG _ _ true o t ih n h
+    exact ⟨hk, ((nti_ok _ _ o ho t hwf ih).2.1 n hk).1 h⟩
+  · rintro ⟨hk, hs⟩
+    exact ((nti_ok _ _ o ho t hwf ih).2.1 n hk).2 hs
+
+/-- the rendered method names are pairwise distinct (an interface cannot list a name twice) -/
+theorem rendered_methods_nodup (o : Opts) (ho : o.embedded = true) (ih : IH) (t : Ty GoType Sig)
+    (hwf : WF t) : ((findInterface false o ih t).2.methods.map (·.1)).Nodup := by
+  unfold findInterface
+  simp only [Bool.not_false]
+  exact (nti_ok _ _ o ho t hwf ih).1
+
+/-- **rendered_methods_promoted.** Every method the repaired merge renders is promoted by Go (a
+legal selector on the type), so the original type has it — for both option settings. -/
+theorem rendered_methods_promoted (o : Opts) (t : Ty Unit Unit) (hwf : WF t) (n : Name)
+    (h : n ∈ ifaceNames true o t) : GoPromotes t n := by
+  by_cases ho : o.embedded = true
+  · exact specHas_promotes t n ((embedded_methods_exact o ho t hwf n).1 h).2
+  · have ho' : o.embedded = false := by simpa using ho
+    cases t with
+    | mk self own emb =>
+      rw [without_embedded true o ho'] at h
+      have hm := (List.mem_filter.1 h).1
+      refine ⟨0, ?_, fun d' hd => absurd hd (Nat.not_lt_zero _)⟩
+      rw [countAt]
+      simp only [contains_iff.2 hm, if_true]
+
+/-- the specification side alone: whatever the specification puts into the interface is promoted by
+Go, at any depth -/
+theorem spec_methods_promoted (t : Ty Unit Unit) (n : Name) (h : specHas t n = true) :
+    GoPromotes t n := specHas_promotes t n h
+
+/-- the property text read literally, at the root only: own methods, plus the methods Go promotes
+whose names are defined under at most one embedded field -/
+def LitHas {ρ σ : Type} : Ty ρ σ → Name → Prop
+  | .mk self own emb, n =>
+    n ∈ own.map (·.1) ∨ (GoPromotes (.mk self own emb) n ∧ specCount emb n ≤ 1)
+
+/-- at ANY depth the recursive reading is at least as strict as the literal one: whatever the
+specification (hence the repaired code) renders, the literal text allows.  (The converse holds on
+the quantifier's two-level trees but not deeper — see the example after `sampleT`: below three
+levels a name can be promoted by Go's depth rule while being ambiguous inside an intermediate
+type; the code, like its doc comment, drops it.  That converse is NOT proved here.) -/
+theorem spec_implies_literal {ρ σ : Type} (t : Ty ρ σ) (n : Name) (h : specHas t n = true) :
+    LitHas t n := by
+  have hp := specHas_promotes t n h
+  cases t with
+  | mk self own emb =>
+    rw [specHas] at h
+    simp only [LitHas]
+    by_cases hx : (own.map (·.1)).contains n = true
+    · exact Or.inl (contains_iff.1 hx)
+    · have hx' : (own.map (·.1)).contains n = false := by simpa using hx
+      simp only [hx', Bool.false_or, Bool.and_eq_true, beq_iff_eq] at h
+      exact Or.inr ⟨hp, by omega⟩
 
 def leaf (ns : List Name) : Ty Unit Unit := .mk () (ns.map (fun n => (n, ()))) []
 def node (ns : List Name) (emb : List (Ty Unit Unit)) : Ty Unit Unit := .mk () (ns.map (fun n => (n, ()))) emb
@@ -651,117 +719,118 @@ def sampleT : Ty Unit Unit :=
     node [['B', 'a', 'z']] [leaf [nFoo]],                   -- Foo under two fields, Baz under one
     leaf [['Q', 'u', 'x'], ['q']]]
 
-theorem embedded_methods_exact_partial :
+/-- evaluated samples of `embedded_methods_exact` / `rendered_methods_promoted` (non-vacuity: both
+trees satisfy `WF`) -/
+example :
     (∀ t ∈ [witnessC, sampleT], ∀ o ∈ [(⟨true, true⟩ : Opts), ⟨false, true⟩],
       ∀ n ∈ allNames t, (decide (n ∈ ifaceNames true o t) = (keep o n && specHas t n)) ∧
         (n ∈ ifaceNames true o t → goPromotes t n = true)) ∧
     ifaceNames true ⟨true, true⟩ sampleT = [nOwn, nPriv, ['B', 'a', 'z'], ['Q', 'u', 'x'], ['q']] := by
   decide
 
+/-- three levels deep the literal and the recursive reading part: `P{T}`, `T{A;B}`, `A.Foo`,
+`B{C}`, `C.Foo` — Go promotes `P.Foo` (= `A.Foo`, depth 2) and `Foo` is under one embedded field of
+`P`; but it is defined under two embedded fields of `T`, so `T`'s interface, and hence `P`'s, omits
+it — in the specification and in both algorithms -/
+example :
+    let p := node [] [node [] [leaf [nFoo], node [] [leaf [nFoo]]]]
+    goPromotes p nFoo = true ∧ specHas p nFoo = false ∧
+      nFoo ∉ ifaceNames true ⟨true, true⟩ p ∧ nFoo ∉ ifaceNames false ⟨true, true⟩ p := by
+  decide
+
+/-- non-vacuity of the hypothesis `WF` -/
+example : WF witnessC ∧ WF sampleT := by
+  simp [witnessC, sampleT, node, leaf, WF, WFL, nFoo, nBar, nOwn, nPriv]
+
 /-! ## (c) type references and imports
 
-Full statements (NOT proved here):
+`sem t` is the type a `go/types` term stands for (package identity = import path, parameter names
+irrelevant); `denote cur act e` is what a rendered reference `e` means inside package `cur` whose
+import block is `act` (a qualifier used by two imports, or by none, means nothing).  The work is in
+`Lemmas/GencommonRefs.lean` (`extract_ok`, by mutual structural induction over `GoType`); the
+import step it rests on is `addImport_active` / `addImport_mono` there. -/
 
-```
-theorem typeRef_denotes_same (gs) (ih : IH) (t : GoType) (hd : DistinctAliases (extract gs ih t).1) :
-    denote ih.cur (extract gs ih t).1.active (extract gs ih t).2 = some (sem t)
-theorem needed_imports_active (gs) (ih : IH) (t : GoType) :
-    ∀ path ∈ pathsOf t, path ≠ ih.cur → ∃ a, Active (extract gs ih t).1 path a   -- and `a` is the
-    -- qualifier printed at that node
-```
+/-- **typeRef_denotes_same.** For EVERY type term and every handler state: if the active imports
+after `ExtractTypeRef` have pairwise distinct aliases, the rendered reference denotes the identical
+type. -/
+theorem typeRef_denotes_same (ih : IH) (t : GoType)
+    (hd : DistinctAliases (extract ensureParamNames ih t).1) :
+    denote ih.cur (extract ensureParamNames ih t).1.active (extract ensureParamNames ih t).2
+      = some (sem t) :=
+  (extract_ok ensureParamNames lenOK_ensureParamNames t ih).2.2 _ (Le.refl _) hd
 
-Proved for every handler state: the step both rest on — `addImport` (the import part of
-`addNamed`) returns no qualifier exactly for the current package, otherwise the alias of an entry
-for that very path which is in use afterwards (`addImport_active`), and never loses or re-aliases
-an entry that was active before (`addImport_mono`).  Missing: lifting these two through the mutual
-recursion of `extract`/`extractL`/`extractPs` (monotonicity of `denote` in the import table under
-distinct aliases).  `typeRef_round_trip_partial` evaluates the full statement on a term using every
-constructor, with plain, renamed and not-yet-imported packages. -/
+/-- … and it keeps denoting that type in every later state of the handler (more types extracted,
+more imports activated — `GetActive` is cumulative), as long as the aliases stay distinct. -/
+theorem typeRef_denotes_same_later (ih ihF : IH) (t : GoType)
+    (hle : Le (extract ensureParamNames ih t).1 ihF) (hd : DistinctAliases ihF) :
+    denote ih.cur ihF.active (extract ensureParamNames ih t).2 = some (sem t) :=
+  (extract_ok ensureParamNames lenOK_ensureParamNames t ih).2.2 ihF hle hd
 
-/-- the import table has an in-use entry for `path` under `alias` -/
-def Active (ih : IH) (path alias : Name) : Prop :=
-  ∃ i ∈ ih.imports, i.path = path ∧ i.alias = alias ∧ i.inUse = true
+/-- **needed_imports_active.** Every package a type term mentions, other than the current one, is
+among the active imports afterwards (and, by `typeRef_denotes_same`, under the alias printed). -/
+theorem needed_imports_active (ih : IH) (t : GoType) (p : Name) (hp : p ∈ pathsOf t)
+    (hne : p ≠ ih.cur) : ∃ i ∈ (extract ensureParamNames ih t).1.active, i.path = p := by
+  obtain ⟨a, i, hi, h1, _, h3⟩ :=
+    (extract_ok ensureParamNames lenOK_ensureParamNames t ih).2.1 p hp hne
+  exact ⟨i, List.mem_filter.2 ⟨hi, h3⟩, h1⟩
 
-theorem markUsed_mem {p : Name} : ∀ (is : List ImportDesc) (i : ImportDesc), i ∈ is →
-    ∃ j ∈ markUsed p is, j.path = i.path ∧ j.alias = i.alias ∧ (i.inUse = true → j.inUse = true) := by
-  intro is
-  induction is with
-  | nil => intro i h; cases h
-  | cons x xs ih =>
-    intro i h
-    simp only [markUsed]
-    rcases List.mem_cons.1 h with rfl | h
-    · by_cases hp : i.path = p
-      · simp only [hp, if_true]
-        exact ⟨_, List.mem_cons_self, hp.symm ▸ rfl, rfl, fun _ => rfl⟩
-      · simp only [hp, if_false]
-        exact ⟨i, List.mem_cons_self, rfl, rfl, id⟩
-    · by_cases hp : x.path = p
-      · simp only [hp, if_true]
-        exact ⟨i, List.mem_cons_of_mem _ h, rfl, rfl, id⟩
-      · simp only [hp, if_false]
-        obtain ⟨j, hj, h1⟩ := ih i h
-        exact ⟨j, List.mem_cons_of_mem _ hj, h1⟩
+/-- `ExtractTypeRef` never drops or re-aliases an active import and never changes the package -/
+theorem extract_grows (ih : IH) (t : GoType) : Le ih (extract ensureParamNames ih t).1 :=
+  (extract_ok ensureParamNames lenOK_ensureParamNames t ih).1
 
-theorem markUsed_found {p : Name} : ∀ (is : List ImportDesc) (i : ImportDesc),
-    is.find? (fun i => i.path = p) = some i →
-    ∃ j ∈ markUsed p is, j.path = p ∧ j.alias = i.alias ∧ j.inUse = true := by
-  intro is
-  induction is with
-  | nil => intro i h; simp at h
-  | cons x xs ih =>
-    intro i h
-    simp only [markUsed]
-    by_cases hp : x.path = p
-    · simp only [List.find?_cons, hp, decide_true] at h
-      simp only [hp, if_true]
-      cases h
-      exact ⟨_, List.mem_cons_self, rfl, rfl, rfl⟩
-    · simp only [List.find?_cons, hp, decide_false] at h
-      simp only [hp, if_false]
-      obtain ⟨j, hj, h1⟩ := ih i h
-      exact ⟨j, List.mem_cons_of_mem _ hj, h1⟩
+/-- the same three facts for a whole method (`MethodFromSignature`): parameter and result types,
+position by position -/
+theorem method_types_denote_same (ih ihF : IH) (s : Sig)
+    (hle : Le (methodFromSignature ensureParamNames ih s).1 ihF) (hd : DistinctAliases ihF) :
+    denoteL ih.cur ihF.active ((methodFromSignature ensureParamNames ih s).2.input.map (·.2))
+      = some (semPs s.params) ∧
+    denoteL ih.cur ihF.active ((methodFromSignature ensureParamNames ih s).2.output.map (·.2))
+      = some (semPs s.results) :=
+  (methodFromSignature_ok ensureParamNames lenOK_ensureParamNames
+    (fun i o => (ensureParamNames_length i o).2) ih s).2.2 ihF hle hd
 
-/-- an entry that was active stays active under the same alias -/
-theorem addImport_mono (ih : IH) (q nm : Name) (p a : Name) (h : Active ih p a) :
-    Active (addImport ih q nm).1 p a := by
-  unfold addImport
-  split
-  · exact h
-  · split
-    · obtain ⟨i, hi, h1, h2, h3⟩ := h
-      obtain ⟨j, hj, e1, e2, e3⟩ := markUsed_mem (p := q) ih.imports i hi
-      exact ⟨j, hj, e1.trans h1, e2.trans h2, e3 h3⟩
-    · obtain ⟨i, hi, h1⟩ := h
-      exact ⟨i, List.mem_append_left _ hi, h1⟩
+/-- `FindInterface` never drops or re-aliases an active import (so `GetActive()` is cumulative over
+calls on one handler) -/
+theorem findInterface_grows (o : Opts) (ih : IH) (t : Ty GoType Sig) :
+    Le ih (findInterface false o ih t).1 := by
+  unfold findInterface
+  simp only [Bool.not_false, Bool.false_eq_true, if_false]
+  exact (nti_fromSig ensureParamNames lenOK_ensureParamNames
+    (fun i o => (ensureParamNames_length i o).2) true o ih t).1
 
-/-- **needed import, one reference.** Referring to a named type of package `q`: no qualifier iff
-`q` is the current package; otherwise the qualifier printed is the alias of an entry for `q` that
-is in use afterwards. -/
-theorem addImport_active (ih : IH) (q nm : Name) :
-    (q = ih.cur → (addImport ih q nm).2 = none ∧ (addImport ih q nm).1 = ih) ∧
-    (q ≠ ih.cur → ∃ a, (addImport ih q nm).2 = some a ∧ Active (addImport ih q nm).1 q a) := by
-  constructor
-  · intro h; simp [addImport, h]
-  · intro h
-    unfold addImport
-    simp only [h, if_false]
-    split
-    · rename_i i hf
-      obtain ⟨j, hj, h1⟩ := markUsed_found ih.imports i hf
-      exact ⟨i.alias, rfl, j, hj, h1⟩
-    · refine ⟨_, rfl, _, List.mem_append_right _ List.mem_cons_self, ?_, rfl, ?_⟩
-      · split <;> rfl
-      · split <;> rfl
+/-- **every referenced type denotes the identical type, at the level of `FindInterface`.** For any
+embedding tree, any signatures, any options and any handler state: if the active imports afterwards
+have pairwise distinct aliases, then every method of the result stems from a signature `s` declared
+in the tree under that method's name, and its rendered parameter and result types denote, position
+by position, exactly the types of `s`. -/
+theorem rendered_types_denote_same (o : Opts) (ih : IH) (t : Ty GoType Sig)
+    (hd : DistinctAliases (findInterface false o ih t).1) :
+    ∀ y ∈ (findInterface false o ih t).2.methods, ∃ s : Sig, (y.1, s) ∈ allMeths t ∧
+      denoteL ih.cur (findInterface false o ih t).1.active (y.2.input.map (·.2))
+        = some (semPs s.params) ∧
+      denoteL ih.cur (findInterface false o ih t).1.active (y.2.output.map (·.2))
+        = some (semPs s.results) := by
+  have hle := findInterface_grows o ih t
+  revert hd hle
+  unfold findInterface
+  simp only [Bool.not_false, Bool.false_eq_true, if_false]
+  intro hd hle y hy
+  obtain ⟨s, ih0, h1, h2, h3⟩ := (nti_fromSig ensureParamNames lenOK_ensureParamNames
+    (fun i o => (ensureParamNames_length i o).2) true o ih t).2 y hy
+  have hok := methodFromSignature_ok ensureParamNames lenOK_ensureParamNames
+    (fun i o => (ensureParamNames_length i o).2) ih0 s
+  have hcur : ih0.cur = ih.cur := by
+    rw [← hok.1.1, ← h3.1, hle.1]
+  have := hok.2.2 _ h3 hd
+  rw [hcur, ← h2] at this
+  exact ⟨s, h1, this⟩
 
-/-- the current package never changes -/
-theorem addImport_cur (ih : IH) (q nm : Name) : (addImport ih q nm).1.cur = ih.cur := by
-  unfold addImport
-  split
-  · rfl
-  · split <;> rfl
-
-def DistinctAliases (ih : IH) : Prop := (ih.active.map (·.alias)).Nodup
+/-- the pinned commit's naming does not affect type references: the same holds with it -/
+theorem typeRef_denotes_same_legacy_naming (ih : IH) (t : GoType)
+    (hd : DistinctAliases (extract ensureParamNamesLegacy ih t).1) :
+    denote ih.cur (extract ensureParamNamesLegacy ih t).1.active
+      (extract ensureParamNamesLegacy ih t).2 = some (sem t) :=
+  (extract_ok ensureParamNamesLegacy lenOK_ensureParamNamesLegacy t ih).2.2 _ (Le.refl _) hd
 
 def sib : Name := ['s', 'i', 'b']
 def pSib : Name := ['m', '/', 's', 'i', 'b']
@@ -782,11 +851,27 @@ def sampleTypes : List GoType :=
           (['x', 's'], .slice (.named pSib sib tT []))] true
      [([], .named pCur ['t', 'g', 't'] tT []), ([], .basic ['e', 'r', 'r', 'o', 'r'])]]
 
-theorem typeRef_round_trip_partial :
+/-- evaluated sample of `typeRef_denotes_same` / `needed_imports_active`, and non-vacuity of
+`DistinctAliases` (plain, renamed and not-yet-imported packages, every constructor) -/
+example :
+    DistinctAliases (extractL ensureParamNames sampleIH sampleTypes).1 ∧
     (denoteL pCur (extractL ensureParamNames sampleIH sampleTypes).1.active
       (extractL ensureParamNames sampleIH sampleTypes).2).map (SType.sameL (semL sampleTypes)) = some true ∧
     (extractL ensureParamNames sampleIH sampleTypes).1.active.map (fun i => (i.alias, i.path)) =
       [(sib, pSib), (['r', 'n'], pRen), (['d', 'e', 'e', 'p'], pDeep)] := by
-  decide
+  refine ⟨?_, ?_⟩
+  · unfold DistinctAliases; decide
+  · decide
+
+/-- non-vacuity of `rendered_types_denote_same`: a struct with one own method
+`M(_ sib.T, xs ...rn.Box[T]) error` embedding a type with `Get() deep.T`; the hypothesis holds -/
+example :
+    DistinctAliases (findInterface false ⟨true, true⟩ sampleIH
+      (.mk (.named pCur ['t', 'g', 't'] ['S'] [])
+        [(['M'], ⟨[(['_'], .named pSib sib tT []),
+                   (['x', 's'], .slice (.named pRen ['r', 'e', 'n'] ['B', 'o', 'x'] [.named pCur ['t', 'g', 't'] tT []]))],
+                  true, [([], .basic ['e', 'r', 'r', 'o', 'r'])]⟩)]
+        [.mk (.named pSib sib ['E'] []) [(['G', 'e', 't'], ⟨[], false, [([], .named pDeep ['d', 'e', 'e', 'p'] tT [])]⟩)] []])).1 := by
+  unfold DistinctAliases; decide
 
 end Gencommon
